@@ -29,6 +29,12 @@ def body_statements(b, strlen):
         b.expr_stmt(b.call(b.member(v('a'), 'div'), [v('c')])),
         b.expr_stmt(b.call(b.member(v('a'), 'mod'), [v('c')])),
         b.expr_stmt(b.call(v('add'), [v('a'), v('c')])),
+        # call sites are recognised by the member they call, whatever the argument list looks like (the OpenZeppelin overloads take a
+        # revert message; a call without arguments or with three is still a call of `sub` / `mul` / `div` on a member)
+        b.expr_stmt(b.call(b.member(v('a'), 'sub'), [v('c'), b.string('SafeMath: subtraction overflow')])),
+        b.expr_stmt(b.call(b.member(b.index(v('bal'), v('c')), 'div'), [v('c'), b.string('division by zero'), v('d')])),
+        b.expr_stmt(b.call(b.member(v('a'), 'mul'), [])),
+        b.expr_stmt(b.call(b.member(b.call(b.member(v('a'), 'add'), [v('c')]), 'sub'), [v('d'), b.string('nested')])),
         b.expr_stmt(b.member(v('a'), 'add')),
         b.expr_stmt(b.call(v('require'), [b.bin('More', v('a'), v('c')), b.string(msg)])),
         b.expr_stmt(b.call(v('require'), [b.bin('More', v('a'), v('c'))])),
